@@ -227,7 +227,25 @@ def run_config_symbolic(pid, cfg, tier, seed):
         fd = loader.fresh(symbolic=True)
         timeout_ms = cfg.get('timeout_ms', 20000 if tier == 'quick' else 120000)
         cases = []
-        if getattr(mod, 'EXPLORE', False) or cfg.get('explore'):
+        explore_mode = bool(getattr(mod, 'EXPLORE', False) or cfg.get('explore'))
+        if not explore_mode:
+            from . import sym as _sym
+            try:
+                c = _ctx.new()
+                c.fork_where = False
+                B = Backend(True, fd=fd)
+                mod.harness(cfg, B)
+                cases.append((B, None))
+                rec['paths'] = 1
+            except _sym.NoExplorer as e:
+                # the code under test branches in Python on a symbolic value (not anticipated for this configuration, e.g. after a
+                # change of /repo): fall back to path exploration instead of failing
+                rec['notes'].append('python-level branch on a symbolic value met (%s): configuration re-run under the path explorer' % str(e)[:120])
+                cases = []
+                explore_mode = True
+        if not explore_mode:
+            pass
+        elif True:
             # path exploration: the harness is re-executed per path; assumptions come from a dry pre-pass
             ex = explore.Explorer(assume=[], max_paths=cfg.get('max_paths', 4000),
                                   max_depth=cfg.get('max_depth', 400), fork_where=cfg.get('fork_where', False),
@@ -251,13 +269,6 @@ def run_config_symbolic(pid, cfg, tier, seed):
             if ex.stats['truncated']:
                 rec['obligations'].append({'name': 'path-exploration-complete', 'kind': 'true', 'verdict': 'unknown', 's': 0.0,
                                            'size': 0, 'method': 'explore', 'note': 'max_paths reached: exploration truncated'})
-        else:
-            c = _ctx.new()
-            c.fork_where = False
-            B = Backend(True, fd=fd)
-            mod.harness(cfg, B)
-            cases.append((B, None))
-            rec['paths'] = 1
         for B, path in cases:
             case = B.case
             assume = list(case.assume)
